@@ -7,7 +7,6 @@ package main
 import (
 	"encoding/json"
 	"fmt"
-	"math"
 	"math/rand"
 	"sort"
 	"strings"
@@ -60,10 +59,17 @@ func runSeq(s *seqSpec) (obs []stepObs, stopped bool) {
 			}
 		}
 	}
+	// Keys are tagged with their operation only where that is needed to tell two calls' cache events apart (histories
+	// with cancellations); otherwise the group is handed the real hasher.go key values, also behind the logging facade.
+	tag := false
+	for _, o := range s.Steps {
+		tag = tag || o.cancels()
+	}
+	tag = tag && g.Wrapped
 	for i := 0; i < len(s.Steps); i++ {
 		o := s.Steps[i]
 		oc := newOpCtx(i, o)
-		oc.tagged = g.Wrapped // the logging facade strips the tag, so every cache call names its operation
+		oc.tagged = tag
 		m := h.mark()
 		r := callOpTimed(grp, h, g.Kind, oc)
 		if r.Kind == "hang" {
@@ -86,7 +92,7 @@ func runSeq(s *seqSpec) (obs []stepObs, stopped bool) {
 		i++
 		bo := s.Steps[i]
 		boc := newOpCtx(i, bo)
-		boc.tagged = g.Wrapped
+		boc.tagged = tag
 		br := callOpTimed(grp, h, g.Kind, boc)
 		all := h.since(m)
 		so := stepObs{Res: r, Cancelled: oc.wasCancelled()}
@@ -107,7 +113,7 @@ func runSeq(s *seqSpec) (obs []stepObs, stopped bool) {
 			return obs, false
 		}
 	}
-	return obs, stopGroup(grp)
+	return obs, stopGroup(grp) && h.apiNote == ""
 }
 
 func seqCase(s *seqSpec, obs []stepObs, stopped bool) vh.Case {
@@ -220,25 +226,34 @@ func genGroup(r *rand.Rand, focus string) grpSpec {
 			break
 		}
 	}
-	// the universe: a few keys, often colliding on one worker
-	nk := 2 + r.Intn(4)
+	if !kindCacheable(g.Kind) {
+		g.Wrapped = true // mux.Bytes keys: only the logging facade can stand between them and a real cache
+	}
+	genUniverse(r, &g, 2+r.Intn(4))
+	for _, k := range g.Univ {
+		if r.Intn(10) < 3 {
+			g.InitL = append(g.InitL, [2]int64{k, genDatum(r, &g)})
+		}
+	}
+	return g
+}
+
+// the universe: a few keys of the group's key type - the boundaries of the type (min, max, 0, and for the unsigned
+// 64-bit types values >= 2^63, whose HashedInt() is negative), small values, and keys colliding on one worker
+func genUniverse(r *rand.Rand, g *grpSpec, nk int) {
+	lo, hi := kindRange(g.Kind)
 	seen := map[int64]bool{}
 	add := func(k int64) {
-		if !seen[k] && len(g.Univ) < nk {
-			if g.Kind == kUInt64CRC && k < 0 {
-				k = -k
-			}
-			if seen[k] {
-				return
-			}
-			seen[k] = true
-			g.Univ = append(g.Univ, k)
+		if k < lo || k > hi || seen[k] || len(g.Univ) >= nk {
+			return
 		}
+		seen[k] = true
+		g.Univ = append(g.Univ, k)
 	}
 	base := int64(r.Intn(12))
 	add(base)
-	for len(g.Univ) < nk {
-		switch r.Intn(6) {
+	for tries := 0; len(g.Univ) < nk && tries < 200; tries++ {
+		switch r.Intn(9) {
 		case 0:
 			add(base + int64(g.N)*int64(1+r.Intn(3))) // same worker as base for the identity hashes
 		case 1:
@@ -246,21 +261,17 @@ func genGroup(r *rand.Rand, focus string) grpSpec {
 		case 2:
 			add(-int64(r.Intn(9)))
 		case 3:
-			if (g.Kind == kInt || g.Kind == kInt64) && r.Intn(6) == 0 {
-				add(math.MinInt64) // locHash cannot make it non-negative
-			} else {
-				add(int64(r.Intn(40)))
-			}
+			add(lo) // for Int / Int64 / UInt64 / UInt: the hash locHash cannot make non-negative
+		case 4:
+			add(hi)
+		case 5:
+			add([]int64{lo + 1, hi - 1, lo + int64(g.N), hi - int64(g.N), -1, 1<<31 - 1, 1 << 31, 1<<32 - 1, 1 << 32}[r.Intn(9)])
+		case 6:
+			add(int64(r.Intn(40)))
 		default:
 			add(int64(r.Intn(16)))
 		}
 	}
-	for _, k := range g.Univ {
-		if r.Intn(10) < 3 {
-			g.InitL = append(g.InitL, [2]int64{k, genDatum(r, &g)})
-		}
-	}
-	return g
 }
 
 func genFaults(r *rand.Rand, rate, nilRate, cancelRate float64) []int {
